@@ -140,6 +140,13 @@ Definition covers_qb (s : selector) (sc : scenario) (inputs : list utxo) (fee : 
 Inductive verdict : Type := Holds | NotApplicable | Fails (class : N).
 (* classes: 0 = none (a violation), 1 = C08-burn-not-covered *)
 
+(* the UTxOs behind the reported outpoints: a present input wins over an offered one with the same outpoint *)
+Definition judge_inputs (offered pre : list utxo) (final_ids : list N) : list utxo :=
+  flat_map (fun x => match find_utxo x pre with
+                     | Some u => [u]
+                     | None => match find_utxo x offered with Some u => [u] | None => [] end
+                     end) final_ids.
+
 Definition judge (strat : strategy) (offered : list utxo) (sc : scenario)
            (final_ids : list N) (explicit : value) (fee : N) : verdict :=
   if negb (premises_b offered sc) then NotApplicable else
@@ -148,10 +155,7 @@ Definition judge (strat : strategy) (offered : list utxo) (sc : scenario)
   if negb (nodup_b final_ids && forallb (fun x => mem_b x (ids pre) || mem_b x (ids offered)) final_ids) then Fails 0 else
   (* inputs present before are still there *)
   if negb (forallb (fun x => mem_b x final_ids) (ids pre)) then Fails 0 else
-  let inputs := flat_map (fun x => match find_utxo x pre with
-                                   | Some u => [u]
-                                   | None => match find_utxo x offered with Some u => [u] | None => [] end
-                                   end) final_ids in
+  let inputs := judge_inputs offered pre final_ids in
   (* … with their amounts: the explicit input is the sum of the amounts of these UTxOs *)
   match sum_values value_zero (map u_val inputs) with
   | Ok total =>
